@@ -331,6 +331,11 @@ func (e *Engine) applyContract(fr *Frame, st *State, ins ssa.Instruction, c *Con
 	old := st.clone()
 	allocBefore := st.allocTerm()
 	st.allocN += c.Allocates
+	// the callee's parameters as bound at this call site, before result names shadow any of them (read through param(x))
+	params := make(map[string]SVal, len(vars))
+	for k, v := range vars {
+		params[k] = v
+	}
 	// frame
 	if !c.HasMod {
 		if !c.Trusted && !c.Pure {
@@ -368,13 +373,13 @@ func (e *Engine) applyContract(fr *Frame, st *State, ins ssa.Instruction, c *Con
 		if strings.Contains(en.Src, "local(") {
 			continue // a clause over the callee's locals is an obligation of the callee only; callers learn nothing from it
 		}
-		env := &SpecEnv{e: e, pre: old, post: st, vars: vars, pkg: pkg, allocBefore: allocBefore}
+		env := &SpecEnv{e: e, pre: old, post: st, vars: vars, pkg: pkg, allocBefore: allocBefore, params: params}
 		st.assume(env.evalBool(en.E))
 	}
 	for _, sc := range c.Sets {
 		// ghost assignment at exit: value computed over the post-state of the Go heap and the pre-state of ghosts named old()
 		// the assigned value is computed over the state in which the callee was entered (its inputs) and the results
-		env := &SpecEnv{e: e, pre: old, post: old, vars: vars, pkg: pkg, allocBefore: allocBefore, exit: st}
+		env := &SpecEnv{e: e, pre: old, post: old, vars: vars, pkg: pkg, allocBefore: allocBefore, exit: st, params: params}
 		v := env.eval(sc.E)
 		g := e.db.Ghosts[sc.Ghost]
 		if g == nil {
